@@ -379,6 +379,8 @@ func c09ConcurrentRun(c *runner.Ctx) {
 			defer wg.Done()
 			gr := rand.New(rand.NewSource(seeds[g]))
 			dvrs := map[int]segment.DocumentValueReader{}
+			var prevPL segment.PostingsList // goroutine-local objects re-used as prealloc (legal: never shared)
+			var prevPI segment.PostingsIterator
 			panicked, pmsg, stack := runner.Try(func() {
 				for k := 0; k < opsPer && atomic.LoadInt32(&stop) == 0; k++ {
 					si := gr.Intn(len(segs))
@@ -404,11 +406,17 @@ func c09ConcurrentRun(c *runner.Ctx) {
 								msg = "error: " + err.Error()
 							} else {
 								full := sg.X.DocsOf(f, ts[0])
-								_, _, _, ok := navigate(c, gr, navReq{sg: sg, dict: d, field: f, term: ts[gr.Intn(len(ts))], except: genExcept(gr, n, full, 0),
-									fl: [3]bool{gr.Intn(2) == 0, gr.Intn(2) == 0, gr.Intn(2) == 0}, stopAt: 1, sig: "concurrent:wrong-result:postings:"})
+								q := navReq{sg: sg, dict: d, field: f, term: ts[gr.Intn(len(ts))], except: genExcept(gr, n, full, 0),
+									fl: [3]bool{gr.Intn(2) == 0, gr.Intn(2) == 0, gr.Intn(2) == 0}, stopAt: 1, sig: "concurrent:wrong-result:postings:"}
+								if gr.Intn(2) == 0 {
+									q.prePL, q.prePI = prevPL, prevPI
+									prevPL, prevPI = nil, nil
+								}
+								pl, pi, _, ok := navigate(c, gr, q)
 								if !ok {
 									atomic.StoreInt32(&stop, 1)
 								}
+								prevPL, prevPI = pl, pi
 							}
 						}
 					case 3:
